@@ -145,7 +145,7 @@ Proof.
   - (* svd_kron *) intros A ms us _ F. unfold svalid, sym_valid. simpl.
     rewrite (all_b_of_Forall2 ASvd _ ms us);
       [rewrite smat_eqb_refl; reflexivity | intros m v Hv; brute v; fin | exact F].
-  - (* chol_kron *) intros A ms up cs _ F. unfold svalid, sym_valid. simpl.
+  - (* chol_kron *) intros A ms up inst cs _ F. unfold svalid, sym_valid. simpl.
     rewrite (all_b_of_Forall2 (AChol up) _ ms cs);
       [rewrite smat_eqb_refl; unfold is_factor; simpl; destruct up; reflexivity
       | intros m v Hv; brute v; fin | exact F].
@@ -169,6 +169,17 @@ Proof.
              | H : smat_eqb _ _ = true |- _ => rewrite H
              end;
       rewrite ?smat_eqb_refl; cbn [plainv mkv mkv8 sv_kind sv_ok andb skind_eqb onat_eqb Bool.eqb]; rewrite ?Nat.eqb_refl; reflexivity.
+  - (* deleg_lift *) intros A C x _ Hh. brute x; fin.
+  - (* iqld_deleg *) intros A C rhs ld r _ Hh. unfold svalid, sym_valid in *.
+    apply andb_prop in Hh. destruct Hh as (H1 & H2). apply andb_prop in H1. destruct H1 as (Hok & Hof).
+    unfold is_kind in H2. apply skind_eqb_eq in H2.
+    cbn [k_iqld_deleg sym_kern plainv mkv mkv8 sv_ok sv_of sv_kind]. rewrite H2, Hok, smat_eqb_refl. unfold is_kind.
+    cbn [plainv mkv mkv8 sv_kind andb skind_eqb]. destruct rhs; cbn [onat_eqb]; rewrite ?Nat.eqb_refl, ?Bool.eqb_reflx; reflexivity.
+  - (* sample_deleg *) intros A C z v _ Hh. unfold svalid, sym_valid in *.
+    apply andb_prop in Hh. destruct Hh as (H1 & H2). apply andb_prop in H1. destruct H1 as (Hok & Hof).
+    unfold is_kind in H2. apply skind_eqb_eq in H2.
+    cbn [k_sample_deleg sym_kern plainv mkv mkv8 sv_ok sv_of sv_kind]. rewrite H2, Hok, smat_eqb_refl. unfold is_kind.
+    cbn [plainv mkv mkv8 sv_kind andb skind_eqb]. rewrite Nat.eqb_refl. reflexivity.
 Qed.
 
 (* ------------------------------------------------------------------ instances of the history predicates *)
@@ -443,7 +454,7 @@ Qed.
    the factors' caches are written), a derived operator, an add_low_rank whose roots are compatible factor by factor *)
 Definition pf_kron (l : list nat) : profile :=
   {| pf_td_name := Some "LinearOperator.to_dense"; pf_td_kids := []; pf_chol_ignore := false; pf_eig := EigKron l;
-     pf_cm_root := None; pf_precond := false; pf_sum := false; pf_iqld_to := false |}.
+     pf_cm_root := None; pf_precond := false; pf_sum := false; pf_iqld_to := false; pf_deleg := None |}.
 Definition heap_kron : heap sym_kern :=
   Build_heap sym_kern [dense_obj 2 10; dense_obj 2 11; Build_obj sym_kern (pf_kron [0; 1]) 4 true (SBase 12) None None] 0.
 Definition hist_kron : list (event sym_kern) :=
@@ -483,3 +494,38 @@ Example kron_nested_cache_entries :
      [KFull (NStr "root_decomposition") [] [("method", PNone)]];
      [KFull (NStr "root_decomposition") [] []]].
 Proof. split; vm_compute; reflexivity. Qed.
+
+(* ------------------------------------------------------------------ a delegating class in the heap
+   object 0: a batch of dense blocks; object 1: BlockDiagLinearOperator(0).  Queries on the block-diagonal operator
+   write the BASE operator's caches (Cholesky factor through logdet, the Lanczos by-product root through
+   root_inv_decomposition(method="lanczos"), the sampling root through zero_mean_mvn_samples); the base operator is
+   then queried itself, and both under a second settings regime *)
+Definition pf_blockdiag (c : nat) : profile :=
+  {| pf_td_name := Some "LinearOperator.to_dense"; pf_td_kids := []; pf_chol_ignore := false; pf_eig := EigKron [c];
+     pf_cm_root := None; pf_precond := false; pf_sum := false; pf_iqld_to := false; pf_deleg := Some true |}.
+Definition heap_block : heap sym_kern :=
+  Build_heap sym_kern [dense_obj 2 20; Build_obj sym_kern (pf_blockdiag 0) 4 true (SBase 21) None None] 0.
+Definition hist_block : list (event sym_kern) :=
+  [EQuery 1 QLogdet; EQuery 1 (QRootInv [] [("method", PStr "lanczos")]); EQuery 1 (QSample 0); EQuery 1 QSvd;
+   EQuery 0 (QRootDecomp [] []); EQuery 0 (QCholesky [] [("upper", PBool true)]);
+   ESet st_lanczos;
+   EQuery 1 (QIqld 0 true); EQuery 1 (QRootDecomp [] []); EQuery 1 QEigh; EQuery 0 QLogdet].
+
+Lemma heap_block_inv : sInv heap_block.
+Proof.
+  apply Inv_fresh. intros i o G.
+  destruct i as [|[|i]]; simpl in G; try (destruct i; discriminate); inversion G; subst;
+    (split; [reflexivity | split; [reflexivity | apply obj_wfb_ok; vm_compute; reflexivity]]).
+Qed.
+
+Example hist_block_ok : sgood (st_default, heap_block) hist_block.
+Proof. apply good_runb_ok. vm_compute. reflexivity. Qed.
+
+(* what the queries on the block-diagonal operator leave in the two caches (as on the real objects) *)
+Example block_writes_base_caches :
+  map (fun o => d_keys (dict_of (o_memo sym_kern o)))
+      (h_objs sym_kern (snd (snd (run sym_kern fl_pinned (st_default, heap_block)
+         [EQuery 1 QLogdet; EQuery 1 (QRootInv [] [("method", PStr "lanczos")])]))))
+  = [[KFull (NStr "cholesky") [] [("upper", PBool false)]; KFull (NStr "root_decomposition") [] []];
+     [KFull (NStr "root_inv_decomposition") [] [("method", PStr "lanczos")]]].
+Proof. vm_compute. reflexivity. Qed.
